@@ -440,6 +440,38 @@ func (c *lineCtx) compareLayout(w *world) bool {
 	return ok
 }
 
+// flatIDs: the sequence of records of a layout, whatever file or buffer they sit in (the halves of a split frame are
+// one record; junk is 0)
+func flatIDs(d [][]seg, pend []int) []int {
+	var all []int
+	for _, f := range d {
+		for _, s := range f {
+			if len(all) == 0 || all[len(all)-1] != s.id || s.id == 0 {
+				all = append(all, s.id)
+			}
+		}
+	}
+	return append(all, pend...)
+}
+
+// layoutDiffers reports a layout other than the specified one.  When the SEQUENCE OF RECORDS itself differs (the log
+// holds a record nobody wrote, or lacks one that was written) this is the property's own subject and a verdict;
+// a different distribution of the same records over files and buffer is lock-step.
+func (c *lineCtx) layoutDiffers(w *world) {
+	got, want := flatIDs(w.disk, w.pend), flatIDs(c.exp.files, c.exp.buf)
+	text := fmt.Sprintf("on disk %s, specified %s", layoutStr(w.disk, w.pend), layoutStr(c.exp.files, c.exp.buf))
+	if w.gone == c.exp.gone && fmt.Sprint(got) != fmt.Sprint(want) {
+		last := c.acts[len(c.acts)-1].op
+		hist := string(c.raw)
+		if i := strings.Index(hist, `,"o":`); i > 0 {
+			hist = hist[:i]
+		}
+		c.rn.res.Mismatch("wal:content:after-"+last, "the log holds the records "+fmt.Sprint(got)+", specified "+fmt.Sprint(want)+" ("+text+") -- path "+hist, c.detail(nil))
+		return
+	}
+	c.lockstep(w, "layout", text)
+}
+
 func layoutStr(d [][]seg, pend []int) string {
 	var sb strings.Builder
 	for _, f := range d {
@@ -833,7 +865,7 @@ func (c *lineCtx) run() {
 		if ok {
 			same := c.compareLayout(w)
 			if !same {
-				c.lockstep(w, "layout", fmt.Sprintf("on disk %s, specified %s", layoutStr(w.disk, w.pend), layoutStr(c.exp.files, c.exp.buf)))
+				c.layoutDiffers(w)
 			}
 			// A layout other than the specified one ends the line -- except when a FILE STARTS INSIDE
 			// A FRAME: then the question is the property's own (does every reader still return what
@@ -875,7 +907,7 @@ func rawArgs(a action) [][]byte {
 func (c *lineCtx) layoutAfter(w *world, d *dmg) bool {
 	d.apply(w, 0)
 	if !c.compareLayout(w) {
-		c.lockstep(w, "layout", fmt.Sprintf("on disk %s, specified %s", layoutStr(w.disk, w.pend), layoutStr(c.exp.files, c.exp.buf)))
+		c.layoutDiffers(w)
 		return false
 	}
 	return true
